@@ -644,6 +644,70 @@ theorem zipWith_add_zero (G : List (List K)) :
     | nil => rfl
     | cons x xs ihx => simp only [List.map_cons, List.zipWith_cons_cons, add_zero, ihx]
 
+/-- Transposing an `N × d` point list and reading the columns of the result gives the points
+back (`d ≥ 1`, every point with `d` coordinates). -/
+theorem columns_transposePts (d : Nat) (hd : 1 ≤ d) (pts : List (List K))
+    (h : ∀ p ∈ pts, p.length = d) : columns (transposePts d pts) = pts := by
+  induction d generalizing pts with
+  | zero => omega
+  | succ d ih =>
+    cases d with
+    | zero =>
+      simp only [transposePts, columns, List.map_map]
+      conv_rhs => rw [← List.map_id pts]
+      apply List.map_congr_left
+      intro p hp
+      have := h p hp
+      match p, this with
+      | [x], _ => rfl
+    | succ d =>
+      have htail : ∀ q ∈ pts.map List.tail, q.length = d + 1 := by
+        intro q hq
+        obtain ⟨p, hp, rfl⟩ := List.mem_map.mp hq
+        simp [h p hp]
+      have ih' := ih (by omega) (pts.map List.tail) htail
+      rw [transposePts]
+      have hshape : ∃ r rs, transposePts (d + 1) (pts.map List.tail) = r :: rs := ⟨_, _, rfl⟩
+      obtain ⟨r, rs, hr⟩ := hshape
+      rw [hr, columns]
+      · rw [← hr, ih']
+        simp only [List.zipWith_map_left, List.zipWith_map_right, List.zipWith_self]
+        conv_rhs => rw [← List.map_id pts]
+        apply List.map_congr_left
+        intro p hp
+        have := h p hp
+        match p, this with
+        | x :: xs, _ => rfl
+      · simp
+
+theorem transposePts_length (d : Nat) (pts : List (List K)) : (transposePts d pts).length = d := by
+  induction d generalizing pts with
+  | zero => rfl
+  | succ d ih => simp [transposePts, ih]
+
+/-- Point-array call of `per_axis_interpolator`: the single-point interpolant at every column. -/
+theorem perAxisInterpolatorArray_eq (axes : List (Axis K)) (hg : ∀ a ∈ axes, a.Good)
+    (v : List Nat → V) (rows : List (List K)) (h : rows.length = axes.length) :
+    perAxisInterpolatorArray axes v rows = (columns rows).map (perAxisInterp axes v) := by
+  unfold perAxisInterpolatorArray
+  split
+  · rename_i hn
+    have hall : ∀ a ∈ axes, a.Good ∧ a.scheme = .nearest := fun a ha =>
+      ⟨hg a ha, by simpa using List.all_eq_true.mp hn a ha⟩
+    simp only [nearestArray,
+      columns_zipWith_map (fun (a : Axis K) x => nearestIndex a.c a.n x) axes rows h, List.map_map]
+    apply List.map_congr_left
+    intro p _
+    simp only [Function.comp, perAxisInterp_allNearest axes hall v p, nearestInterp]
+  · simp only [perAxisArray, columns_zipWith_map Axis.edge axes rows h, List.map_map]
+    rfl
+
+theorem gridPoints_length (axes : List (Axis K)) : ∀ p ∈ gridPoints axes, p.length = axes.length := by
+  intro p hp
+  have := cartesian_forall₂ (fun (_ : Axis K) (_ : K) => True) axes (axes.map Axis.nodes)
+    (forall₂_map_of_mem Axis.nodes _ axes (fun _ _ _ _ => trivial)) p hp
+  exact this.length_eq.symm
+
 end
 
 end OdlModel.Interp
